@@ -20,6 +20,9 @@ pub struct IoOpts {
     pub shutdown_alts: bool,
     /// every byte offset is a cut point (otherwise only the structural ones)
     pub every_offset: bool,
+    /// the transport buffers internally (like a TLS stream): bytes accepted by poll_write reach
+    /// the wire (`out`) only when a later poll_flush / poll_shutdown completes
+    pub buffered: bool,
 }
 
 impl Default for IoOpts {
@@ -31,6 +34,7 @@ impl Default for IoOpts {
             flush_alts: true,
             shutdown_alts: true,
             every_offset: false,
+            buffered: false,
         }
     }
 }
@@ -59,6 +63,8 @@ pub struct IoState {
     /// read answered Pending although data was available (needs a `readable` event)
     pub read_parked_by_choice: bool,
     pub out: Vec<u8>,
+    /// bytes accepted by poll_write of a buffered transport and not flushed yet
+    pub staged: Vec<u8>,
     /// (offset in `out`, len, stamp) per accepted write
     pub writes: Vec<(usize, usize, u64)>,
     pub stamp: u64,
@@ -93,6 +99,7 @@ impl IoState {
             read_waker: None,
             read_parked_by_choice: false,
             out: Vec::new(),
+            staged: Vec::new(),
             writes: Vec::new(),
             stamp: 0,
             write_waker: None,
@@ -161,6 +168,16 @@ impl IoState {
             true
         } else {
             false
+        }
+    }
+
+    fn flush_staged(&mut self) {
+        if !self.staged.is_empty() {
+            let off = self.out.len();
+            let staged = std::mem::take(&mut self.staged);
+            self.out.extend_from_slice(&staged);
+            let st = self.stamp;
+            self.writes.push((off, staged.len(), st));
         }
     }
 
@@ -330,10 +347,14 @@ impl AsyncWrite for ScriptIo {
         let pick = s.chooser.borrow_mut().choose("write", opts.len() as u32) as usize;
         match opts[pick] {
             Some(k) => {
-                let off = s.out.len();
-                s.out.extend_from_slice(&buf[..k]);
-                let st = s.stamp;
-                s.writes.push((off, k, st));
+                if s.opts.buffered {
+                    s.staged.extend_from_slice(&buf[..k]);
+                } else {
+                    let off = s.out.len();
+                    s.out.extend_from_slice(&buf[..k]);
+                    let st = s.stamp;
+                    s.writes.push((off, k, st));
+                }
                 Poll::Ready(Ok(k))
             }
             None => {
@@ -356,6 +377,7 @@ impl AsyncWrite for ScriptIo {
         let n = if s.opts.flush_alts { 2 } else { 1 };
         let pick = s.chooser.borrow_mut().choose("flush", n);
         if pick == 0 {
+            s.flush_staged();
             Poll::Ready(Ok(()))
         } else {
             s.write_waker = Some(cx.waker().clone());
@@ -379,6 +401,8 @@ impl AsyncWrite for ScriptIo {
         let n = if s.opts.shutdown_alts { 2 } else { 1 };
         let pick = s.chooser.borrow_mut().choose("shutdown", n);
         if pick == 0 {
+            // shutting a buffering transport down flushes it first
+            s.flush_staged();
             s.shutdown_done = true;
             Poll::Ready(Ok(()))
         } else {
